@@ -28,7 +28,7 @@ var Targets = []string{"93.184.216.34:53", "93.184.216.34:80", "[2606:2800:220:1
 var Strangers = []string{"198.51.100.77:7777", "198.51.100.77:53"}
 
 type Op struct {
-	K   string        `json:"k"`             // S send | R reply | X stranger | A advance | Q shutdown | E read error | P parallel
+	K   string        `json:"k"`             // S send | R reply | X stranger | A advance | Q shutdown | QL close listener L only | E read error | P parallel
 	C   int           `json:"c,omitempty"`   // client
 	Key int           `json:"key,omitempty"` // key index; -1 foreign key
 	T   int           `json:"t,omitempty"`   // target (S, R) or stranger (X)
@@ -392,6 +392,10 @@ func Run(cfg Config, ops []Op, tr *Trace) {
 			observe(st, -1)
 		case "A":
 			vrt.Sleep(op.D)
+			observe(st, -1)
+		case "QL":
+			// only listener L of the service is closed (a reload that drops one UDP address)
+			w.StopListener(op.L % len(proxies))
 			observe(st, -1)
 		case "Q":
 			w.Stop()
